@@ -22,7 +22,7 @@ pub fn def() -> PropDef {
 
 fn meta(_ctx: &Ctx) -> EvidenceMeta {
     EvidenceMeta {
-        rule: "modules with 1-400 (thorough: 5000) functions of equal and unequal size, valid and mutated-invalid (errors inside some function bodies), with passive data + memory.init users; each parsed+emitted by the serial build (co-process) and by the parallel build inside scoped rayon pools of 1,2,3,4,8,16 threads, repeated, and once more with the GC pass between parse and emit (pools 1,3,16), with seeded yields/sleeps injected from inside the parallel closures (on_instr_loc callback during parse, log sink on the per-function 'emit function' record during emit). non-trivial = module has >= 8 functions and pools with >= 2 threads ran; distinct by input bytes. Oracle: identical accept/reject decision and byte-identical output for every pool size and repeat.".into(),
+        rule: "modules with 1-400 (thorough: 5000) functions of equal and unequal size, valid and mutated-invalid (errors inside some function bodies), with passive data + memory.init users; each parsed+emitted by the serial build (co-process) and by the parallel build inside scoped rayon pools of 1,2,3,4,8,16 threads, repeated, and again (pools 1,3,16) with the GC pass between parse and emit, with a custom section that echoes the code transform into the output, and with DWARF generation on for inputs carrying LLVM-like DWARF; one case in eight has a function body larger than 32 KiB, with seeded yields/sleeps injected from inside the parallel closures (on_instr_loc callback during parse, log sink on the per-function 'emit function' record during emit). non-trivial = module has >= 8 functions and pools with >= 2 threads ran; distinct by input bytes. Oracle: identical accept/reject decision and byte-identical output for every pool size and repeat.".into(),
         assumptions: vec![
             "rayon schedules are sampled with perturbation, not enumerated: a violation that needs one specific interleaving can be missed".into(),
             "the serial reference is the same harness built without walrus/parallel".into(),
@@ -48,11 +48,12 @@ pub fn server_main() -> i32 {
         if inp.read_exact(&mut buf).is_err() {
             return 0;
         }
-        // first byte: 0 = parse+emit, 1 = parse+GC+emit
+        // first byte: 0 = parse+emit, 1 = parse+GC+emit, 2 = parse+emit with
+        // a section that echoes the code transform, 3 = DWARF generation on
         if buf.is_empty() {
             return 0;
         }
-        let line = match serial_answer(&buf[1..], buf[0] == 1) {
+        let line = match serial_answer(&buf[1..], buf[0]) {
             Ok(Some(b)) => format!("ok {} {}\n", fnv(&b), b.len()),
             Ok(None) => "rejected\n".to_string(),
             Err(f) => format!("panic {}\n", f.signature.replace(' ', "_")),
@@ -63,13 +64,25 @@ pub fn server_main() -> i32 {
     }
 }
 
-fn serial_answer(bytes: &[u8], gc: bool) -> Result<Option<Vec<u8>>, Failure> {
-    let cfg = crate::wal::Cfg::plain().to_config();
+/// configuration of a mode (shared by both builds)
+fn mode_config(mode: u8) -> walrus::ModuleConfig {
+    let mut cfg = crate::wal::Cfg { dwarf: mode == 3, code_transform: mode == 2, ..crate::wal::Cfg::plain() }.to_config();
+    if mode == 2 {
+        cfg.on_parse(|m, _| {
+            m.customs.add(crate::spy::EchoSection::default());
+            Ok(())
+        });
+    }
+    cfg
+}
+
+fn serial_answer(bytes: &[u8], mode: u8) -> Result<Option<Vec<u8>>, Failure> {
+    let cfg = mode_config(mode);
     let mut m = match crate::wal::parse(bytes, &cfg)? {
         Ok(m) => m,
         Err(_) => return Ok(None),
     };
-    if gc {
+    if mode == 1 {
         crate::wal::gc(&mut m)?;
     }
     crate::wal::emit(&mut m).map(Some)
@@ -87,7 +100,7 @@ thread_local! {
 
 static SPAWNED: Mutex<Vec<u32>> = Mutex::new(Vec::new());
 
-fn ask_serial(bytes: &[u8], gc: bool) -> Option<String> {
+fn ask_serial(bytes: &[u8], mode: u8) -> Option<String> {
     use std::io::BufRead;
     SERVER.with(|s| {
         let mut s = s.borrow_mut();
@@ -107,7 +120,7 @@ fn ask_serial(bytes: &[u8], gc: bool) -> Option<String> {
         }
         let srv = s.as_mut()?;
         srv.stdin.write_all(&(bytes.len() as u32 + 1).to_le_bytes()).ok()?;
-        srv.stdin.write_all(&[gc as u8]).ok()?;
+        srv.stdin.write_all(&[mode]).ok()?;
         srv.stdin.write_all(bytes).ok()?;
         srv.stdin.flush().ok()?;
         let mut line = String::new();
@@ -166,13 +179,14 @@ mod par {
         log::set_max_level(log::LevelFilter::Debug);
     }
 
-    pub fn run_once(bytes: &[u8], threads: usize, salt: u64, gc: bool) -> Result<Option<Vec<u8>>, Failure> {
+    pub fn run_once(bytes: &[u8], threads: usize, salt: u64, mode: u8) -> Result<Option<Vec<u8>>, Failure> {
+        let gc = mode == 1;
         SALT.store(salt, Ordering::Relaxed);
         let pool = rayon::ThreadPoolBuilder::new()
             .num_threads(threads)
             .build()
             .map_err(|e| Failure::new("harness:pool", e.to_string()))?;
-        let mut cfg = crate::wal::Cfg::plain().to_config();
+        let mut cfg = mode_config(mode);
         cfg.on_instr_loc(|pos| {
             perturb(*pos as u64);
             walrus::InstrLocId::new(*pos as u32)
@@ -188,6 +202,73 @@ mod par {
             crate::wal::emit(&mut m).map(Some)
         })
     }
+}
+
+fn read_leb(b: &[u8], at: &mut usize) -> Option<u64> {
+    let (mut v, mut shift) = (0u64, 0u32);
+    loop {
+        let x = *b.get(*at)?;
+        *at += 1;
+        v |= ((x & 0x7f) as u64) << shift;
+        shift += 7;
+        if x & 0x80 == 0 {
+            return Some(v);
+        }
+        if shift > 35 {
+            return None;
+        }
+    }
+}
+
+fn write_leb(mut v: u64, out: &mut Vec<u8>) {
+    loop {
+        let b = (v & 0x7f) as u8;
+        v >>= 7;
+        if v == 0 {
+            out.push(b);
+            return;
+        }
+        out.push(b | 0x80);
+    }
+}
+
+/// insert `n` nops before the final `end` of code entry `k`
+fn pad_code_entry(bytes: &[u8], k: usize, n: usize) -> Option<Vec<u8>> {
+    let mut out = bytes[..8].to_vec();
+    let mut at = 8;
+    while at < bytes.len() {
+        let id = bytes[at];
+        let mut p = at + 1;
+        let size = read_leb(bytes, &mut p)? as usize;
+        let payload = bytes.get(p..p + size)?;
+        if id != 10 {
+            out.extend_from_slice(&bytes[at..p + size]);
+        } else {
+            let mut q = 0;
+            let count = read_leb(payload, &mut q)? as usize;
+            let mut np = Vec::new();
+            write_leb(count as u64, &mut np);
+            for i in 0..count {
+                let len = read_leb(payload, &mut q)? as usize;
+                let body = payload.get(q..q + len)?;
+                q += len;
+                if i == k && body.last() == Some(&0x0b) {
+                    write_leb((len + n) as u64, &mut np);
+                    np.extend_from_slice(&body[..len - 1]);
+                    np.extend(std::iter::repeat(0x01).take(n));
+                    np.push(0x0b);
+                } else {
+                    write_leb(len as u64, &mut np);
+                    np.extend_from_slice(body);
+                }
+            }
+            out.push(10);
+            write_leb(np.len() as u64, &mut out);
+            out.extend_from_slice(&np);
+        }
+        at = p + size;
+    }
+    Some(out)
 }
 
 fn materialise(input: &Input) -> Option<(Vec<u8>, String, usize)> {
@@ -216,7 +297,26 @@ fn materialise(input: &Input) -> Option<(Vec<u8>, String, usize)> {
                     }
                 }
             }
-            Some((b, format!("gen:{}+{}mut", gen, n_mut), nf))
+            // a third of the valid cases carry LLVM-like DWARF (one sequence
+            // per function), which mode 2 converts
+            let mut tag = String::new();
+            if n_mut == 0 && bytes.get(1).map(|x| x % 3 == 0).unwrap_or(false) {
+                let mut dch = Ch::new(&mb);
+                if let Some(with) = crate::dwarf::attach_dwarf_simple(&b, &mut dch) {
+                    b = with;
+                    tag.push_str("+dwarf");
+                }
+            }
+            // one case in eight gets a body of more than 32 KiB (a run of
+            // nops before the final end of a late function)
+            if n_mut == 0 && tag.is_empty() && nf >= 2 && bytes.get(2).map(|x| x % 8 == 0).unwrap_or(false) {
+                let k = nf - 1 - (bytes.get(3).copied().unwrap_or(0) as usize % nf.min(3));
+                if let Some(p) = pad_code_entry(&b, k, 33_000) {
+                    b = p;
+                    tag.push_str("+32KiB-body");
+                }
+            }
+            Some((b, format!("gen:{}+{}mut{}", gen, n_mut, tag), nf))
         }
         Input::Wasm { origin, bytes } => {
             let nf = crate::decode::decode(bytes).map(|d| d.funcs.len()).unwrap_or(0);
@@ -242,11 +342,22 @@ pub fn check(ctx: &Ctx, input: &Input) -> CaseResult {
         None => return Ok(out),
     };
     out.hash = fnv(&bytes);
+    if origin.contains("+dwarf") {
+        out.label("input:llvm-like-dwarf");
+    }
+    if origin.contains("+32KiB-body") {
+        out.label("input:function-body>32KiB");
+    }
     let mut plain_serial = String::new();
     // both builds also run the GC pass between parse and emit (entities are
     // deleted, so the emitter walks arenas with holes) under fewer pools
-    for gc in [false, true] {
-    let serial = match ask_serial(&bytes, gc) {
+    // mode 3 (DWARF conversion) comes last and only for inputs that carry
+    // DWARF: with a wrong transform it may not terminate, and mode 2 reports
+    // a wrong transform first
+    let modes: &[u8] = if origin.contains("+dwarf") { &[0, 2, 1, 3] } else { &[0, 2, 1] };
+    for &mode in modes {
+    let gc = mode != 0;
+    let serial = match ask_serial(&bytes, mode) {
         Some(s) => s,
         None => {
             return Err(Failure::new(
@@ -259,20 +370,24 @@ pub fn check(ctx: &Ctx, input: &Input) -> CaseResult {
         out.label("skip:serial-build-panicked(C02/C05)");
         return Ok(out);
     }
-    if !gc {
+    if mode == 0 {
         plain_serial = serial.clone();
     } else if serial.starts_with("ok") {
-        out.label("gc-between-parse-and-emit");
+        out.label(match mode {
+            1 => "gc-between-parse-and-emit",
+            2 => "code-transform-echoed",
+            _ => "dwarf-converted",
+        });
     }
     let repeats = if gc { 1 } else { ctx.tier.pick(2, 6) };
     let pools: &[usize] = if gc { &[1, 3, 16] } else { &[1, 2, 3, 4, 8, 16] };
     for &threads in pools {
         for rep in 0..repeats {
             let salt = mix(out.hash, (threads * 131 + rep) as u64);
-            let r = par::run_once(&bytes, threads, salt, gc).map_err(|f| {
+            let r = par::run_once(&bytes, threads, salt, mode).map_err(|f| {
                 Failure::new(
                     format!("parallel-{}", f.signature),
-                    format!("{} [threads={} repeat={} gc={} {} functions {}]", f.detail, threads, rep, gc, nf, origin),
+                    format!("{} [threads={} repeat={} mode={} {} functions {}]", f.detail, threads, rep, mode, nf, origin),
                 )
             })?;
             let got = match &r {
@@ -288,8 +403,8 @@ pub fn check(ctx: &Ctx, input: &Input) -> CaseResult {
                 return Err(Failure::new(
                     kind,
                     format!(
-                        "serial build: {}; parallel build with {} threads (repeat {}): {} [{} functions, gc={}, {}]",
-                        serial, threads, rep, got, nf, gc, origin
+                        "serial build: {}; parallel build with {} threads (repeat {}): {} [{} functions, mode={} (0 plain, 1 gc, 2 transform echo, 3 dwarf), {}]",
+                        serial, threads, rep, got, nf, mode, origin
                     ),
                 ));
             }
